@@ -38,7 +38,7 @@ func (s *Server) CodeAction(ctx context.Context, params *protocol.CodeActionPara
 
 func (s *Server) getCodeActions() []protocol.CodeAction {
 	settings := s.getSettings()
-	if s.cliClient == nil || !s.cliClient.Available() || !settings.CLI.Enabled {
+	if client := s.getCLIClient(); client == nil || !client.Available() || !settings.CLI.Enabled {
 		return nil
 	}
 
@@ -76,7 +76,8 @@ func (s *Server) ExecuteCommand(ctx context.Context, params *protocol.ExecuteCom
 		return nil, fmt.Errorf("invalid command argument type")
 	}
 
-	if s.cliClient == nil || !s.cliClient.Available() {
+	client := s.getCLIClient()
+	if client == nil || !client.Available() {
 		return nil, fmt.Errorf("hledger not available")
 	}
 
@@ -95,7 +96,7 @@ func (s *Server) ExecuteCommand(ctx context.Context, params *protocol.ExecuteCom
 		return nil, fmt.Errorf("no document open")
 	}
 
-	output, err := s.cliClient.Run(ctx, filePath, cmd)
+	output, err := client.Run(ctx, filePath, cmd)
 	if err != nil {
 		return formatOutputAsComment(cmd, fmt.Sprintf("Error: %v", err)), nil
 	}
